@@ -15,7 +15,7 @@ RULE = (
     "covariance, corrcoef on the array cube), junk under False validity, optionally the same array object passed as "
     "fact and as weight. Oracle: deep snapshots (dtype, shape, bytes of every array; entries, common, shape of every "
     "index; nested lists) of every argument before == after all calls; calculate(perm(L))[i] == calculate([fresh "
-    "twin of L[i]])[0]; a second calculate with the same objects returns the same arrays; the same objects on a "
+    "twin of L[i]])[0] (a third of the lists contain the same object twice); a second calculate with the same objects returns the same arrays; the same objects on a "
     "second cube built from equal data return the same arrays. index_methods: every non-mutating index method "
     "(to_array, copy, filtered, sliced, slices1d, reindexed, collapsed, column_stack, common_rowids, get / items / "
     "to_dict with force, from_array with counts / mapping, cube construction, walk, product) leaves the receiver "
@@ -53,6 +53,8 @@ def cases(draw, tier):
                       "weighted": draw(st.booleans())})
     spec["funcs"] = funcs
     spec["perm"] = draw(st.permutations(list(range(n))))
+    # the SAME function object may appear more than once in the list handed to calculate
+    spec["repeat"] = draw(st.one_of(st.none(), st.none(), st.integers(0, n - 1)))
     return spec
 
 
@@ -153,6 +155,8 @@ def check(case, rec):
                 twin = make_func(kind, f, farg, warg, NN)
                 alone.append(cube_for(dims_a).calculate([twin])[0])
             perm = list(case["perm"])
+            if case.get("repeat") is not None:
+                perm = perm + [case["repeat"]]
             together = cube_a.calculate([L[i] for i in perm])
             again = cube_a.calculate([L[i] for i in perm])
             other = cube_for(dims_b).calculate(list(L))
@@ -178,6 +182,8 @@ def check(case, rec):
             raise Violation("%s modified its argument %r (aggregates %s)" % (
                 what, k, [f["agg"] for f in funcs]), sig="%s modified argument %s" % (kind, k.split("_")[0]))
     rec.note("kind=" + kind, "nfuncs=%d" % len(L))
+    if case.get("repeat") is not None:
+        rec.note("same object twice in the list")
     for f in funcs:
         rec.note("agg=" + f["agg"])
     junk = fspec["form"] == "tuple" and not all(fspec["valid"])
